@@ -64,6 +64,19 @@ Definition snap_rtt (acc : list probe) (h : hop) : hop :=
   | None => h
   end.
 
+(** C02/C07 engine part, parallel engine: a reply that became readable at least one poll interval
+    before the deadline, for a TTL that was probed, was accepted by the receiver *)
+Definition accepted_completeb (p : tparams) (script : list entry) (sends : list (Z * Z)) (acc : list probe) : bool :=
+  forallb (fun e =>
+    if e_kind e =? 0 then
+      match lookup sends (e_ttl e) with
+      | Some s => if s + e_delay e + tp_poll p <=? pdeadline p
+                  then existsb (fun q => (p_ttl q =? e_ttl e) && (p_ip q =? e_ip e) && Bool.eqb (p_dest q) (e_dest e) && (p_rtt q - e_delay e <? tp_poll p + 1) && (e_delay e <=? p_rtt q)) acc
+                  else true
+      | None => true
+      end
+    else true) script.
+
 Definition check_eng (prop : Z) (inp impl : sx) : sx :=
   match inp, impl with
   | L [A 1; A ser; A first; A last; A timeout; A poll; A delay; L script; A cancel_at],
@@ -93,7 +106,10 @@ Definition check_eng (prop : Z) (inp impl : sx) : sx :=
             else if negb (status =? 0) then (if valid_all then [9] else [])   (* a run whose accepted replies are all in range must succeed *)
             else if negb valid_all then [3; 1]                (* a reply outside the probed TTL range produced a path instead of an error *)
             else if prop =? 3 then (if shapeb first last acc hops then [] else [3])
-            else if prop =? 7 then (if merge_specb acc hops && (Z.of_nat (length hops) <=? last - first + 1) then [] else [7])
+            else if (prop =? 7) || (prop =? 4) then
+              (if negb (merge_specb acc hops && (Z.of_nat (length hops) <=? last - first + 1)) then [7]
+               else if negb serial && (cancel_at =? 0) && negb (accepted_completeb p script sends acc) then [7; 2] else [])
+            else if prop =? 2 then (if negb serial && (cancel_at =? 0) && negb (accepted_completeb p script sends acc) then [2; 3] else [])
             else if prop =? 8 then (if elapsed_okb serial p elapsed then [] else [8])
             else if prop =? 6 then (if sends_okb p sends acc then [] else [6])
             else if prop =? 5 then (if merge_specb acc hops && forallb (fun q => 0 <=? p_rtt q) acc then [] else [5])
